@@ -56,7 +56,7 @@ def run(ctx):
             gv(sps=[16, 32, 8][i % 3], R=[10e9, 10e9, 25e9][i % 3])
 
     # ------------------------------------------------------------------ traced random calls inside the statement's box
-    for it in range(60 if T else 24):
+    for it in range(300 if T else 24):
         setgv(it)
         n = rnd.choice([255, 512, 1001])
         npol = 1 + it % 2
@@ -115,7 +115,7 @@ def run(ctx):
             law("1pol=x-row-of-2pol-with-empty-y", so + 1, two.signal[0] + 1)
     # ------------------------------------------------------------------ exact solutions
     setgv(0)
-    for it in range(30 if T else 12):
+    for it in range(150 if T else 12):
         n = 512 if it % 2 else 511
         rs = np.random.RandomState(200 + it)
         P0 = rs.uniform(0.01, 0.4)
@@ -164,7 +164,7 @@ def run(ctx):
         meta.append(("order", "soliton"))
     # self-convergence on general inputs
     setgv(1)
-    for it in range(8 if T else 3):
+    for it in range(20 if T else 3):
         rs = np.random.RandomState(300 + it)
         n = 512
         f = rs.randn(n) + 1j * rs.randn(n)
